@@ -137,6 +137,10 @@ def make_cases(ctx):
     for _ in range(4 if quick else 16):
         add(front_end="generic", family="std", nvars=rnd.choice([2, 3]), scaled=True,
             params_override={"method": "SLSQP", "maxiter": rnd.choice([2, 3])}, sequence=["opt", "undo"])
+    # (i) the optimum lies beyond the bound of one variable while the others are free
+    for k in range(4 if quick else 16):
+        add(front_end=["generic", "least_squares", "generic", "compensator"][k % 4], family="std", want_type="radius",
+            nvars=rnd.choice([2, 3]), scaled=(k % 2 == 0), beyond_bound=True, sequence=["opt"], nsurf=2)
     # (g) calibration: the driver performs Finish (and update after undo) itself
     for k in range(8 if quick else 16):
         add(front_end=["generic", "least_squares", "dual_annealing", "diff_evolution"][k % 4], family="std",
